@@ -78,7 +78,7 @@ inductive Pc
   | getCreate (f : Fin)                    -- lock held; `obj = self._obj_creator()`
   | getAppend (o : Obj) (f : Fin)          -- lock held; `self._used_objs.append(obj)`
   | getRel (o : Obj) (f : Fin)             -- lock held; leave the `with`, `return obj`
-  | getRaised                              -- lock held; RuntimeError in flight, leave the `with`
+  | getRaised                              -- lock held; RuntimeError (or the creator's exception) in flight, leave the `with`
   | hold (o : Obj) (f : Fin)               -- the caller uses `obj` (body of the `with get_and_release`)
   | relAcq (o : Obj)                       -- release(): `with self._lock`
   | relBody (o : Obj)                      -- lock held; `self._used_objs.remove(obj)`
@@ -114,13 +114,14 @@ inductive Label
   | tau        -- every micro-step except the idle test
   | expired    -- idle test: `now - obj._last_used > idle_timeout`
   | fresh      -- idle test: not expired (`break`)
+  | createFail -- `self._obj_creator()` raises (e.g. an eagerly connecting client class and a server that is down)
 deriving DecidableEq, Repr
 
 inductive Event
   | acq (t : Tid) | rel (t : Tid)
   | lenFree (n : Nat) | lenUsed (n : Nat)
   | popleft (o : Obj) | appendUsed (o : Obj) | removeUsed (o : Obj) | appendFree (o : Obj)
-  | afterRemove (o : Obj) | create (o : Obj) | raiseTooMany | silentMiss (o : Obj)
+  | afterRemove (o : Obj) | create (o : Obj) | createFail | raiseTooMany | silentMiss (o : Obj)
   | clearFree | clearUsed | work (o : Obj) | internalError
 deriving DecidableEq, Repr
 
@@ -136,6 +137,7 @@ def Event.render : Event → String
   | .afterRemove o => s!"after_remove {o}"
   | .create o => s!"create {o}"
   | .raiseTooMany => "raise-too-many"
+  | .createFail => "create-failed"
   | .silentMiss o => s!"silent-miss {o}"
   | .clearFree => "clear-free"
   | .clearUsed => "clear-used"
@@ -195,6 +197,7 @@ def stepE (s : State) (t : Tid) (l : Label) : Option (State × List Event) :=
     else some (goto s t (.getCreate f), [.lenUsed s.used.length])
   | .getCreate f, .tau =>
     some (goto { s with created := s.created + 1 } t (.getAppend s.created f), [.create s.created])
+  | .getCreate _, .createFail => some (goto s t .getRaised, [.createFail])
   | .getAppend o f, .tau => some (goto { s with used := s.used ++ [o] } t (.getRel o f), [.appendUsed o])
   | .getRel o f, .tau => unlock s t [] fun s' => goto s' t (.hold o f)
   | .getRaised, .tau => unlock s t [] fun s' => finish s' t
@@ -284,6 +287,7 @@ def Label.parse : String → Option Label
   | "tau" => some .tau
   | "expired" => some .expired
   | "fresh" => some .fresh
+  | "createFail" => some .createFail
   | _ => none
 
 /-- `"useOk,quitOk;clear;"` ↦ `[[useOk, quitOk], [clear], []]`: threads separated by `;`, Ops by `,` -/
